@@ -601,11 +601,21 @@ pub struct Verdict {
     pub reenc: Vec<String>,
 }
 
+/// processor time this process has used so far (utime + stime, fields 14 and 15 of /proc/self/stat, 100 ticks per second)
+fn cpu_secs() -> f64 {
+    std::fs::read_to_string("/proc/self/stat").ok().and_then(|t| {
+        let rest = t.rsplit_once(')')?.1.to_string();
+        let f: Vec<&str> = rest.split_whitespace().collect();
+        Some((f.get(11)?.parse::<f64>().ok()? + f.get(12)?.parse::<f64>().ok()?) / 100.0)
+    }).unwrap_or(0.0)
+}
+
 pub fn run_one(ctx: &Ctx, entry: &str, strict: bool, input: &[u8]) -> Verdict {
     REENC.with(|r| r.borrow_mut().clear());
-    let t0 = Instant::now();
+    // time is processor time (a loaded machine must not turn into a verdict); the wall clock only decides whether to look at it
+    let (t0, c0) = (Instant::now(), cpu_secs());
     let (r, peak, total) = metered(|| guarded(|| decode_and_sweep(entry, strict, input, ctx)));
-    let micros = t0.elapsed().as_micros();
+    let micros = if t0.elapsed().as_micros() > 1_000_000 { ((cpu_secs() - c0) * 1e6) as u128 } else { t0.elapsed().as_micros() };
     let (mut outcome, mut detail, calls) = match r {
         Ok(Ok(n)) => ("value", String::new(), n),
         Ok(Err(())) => ("error", String::new(), 0),
@@ -617,7 +627,7 @@ pub fn run_one(ctx: &Ctx, entry: &str, strict: bool, input: &[u8]) -> Verdict {
     }
     if outcome != "panic" && outcome != "blowup" && micros > 3_000_000 + 200 * input.len() as u128 {
         outcome = "blowup";
-        detail = format!("{micros} us for an input of {} bytes", input.len());
+        detail = format!("{micros} us of processor time for an input of {} bytes", input.len());
     }
     let reenc = REENC.with(|r| std::mem::take(&mut *r.borrow_mut()));
     Verdict { outcome, detail, calls, peak, total, micros, reenc }
@@ -755,18 +765,20 @@ pub fn replay(args: &[String]) {
     let (tx, rx) = std::sync::mpsc::channel::<(usize, Vec<(String, String, Value)>, [u64; 4])>();
     let cases2 = cases.clone();
     // the work runs on this thread (the meter is global); a watchdog thread aborts a runaway decode with a verdict
+    // "did not finish" is measured in processor time this process actually got, per input (a loaded machine must not turn a slow
+    // run into a verdict): 60 s of CPU on one input of at most a few hundred kilobytes is far beyond any fixed multiple of its size
     let progress = std::sync::Arc::new(AtomicUsize::new(0));
-    let stamp = std::sync::Arc::new(std::sync::Mutex::new(Instant::now()));
+    let stamp = std::sync::Arc::new(std::sync::Mutex::new((Instant::now(), cpu_secs())));
     {
         let (progress, stamp, cases) = (progress.clone(), stamp.clone(), cases2);
         std::thread::spawn(move || loop {
             std::thread::sleep(Duration::from_millis(500));
-            let since = stamp.lock().unwrap().elapsed();
-            if since > Duration::from_secs(60) {
+            let (t0, c0) = *stamp.lock().unwrap();
+            if t0.elapsed() > Duration::from_secs(60) && cpu_secs() - c0 > 60.0 {
                 let i = progress.load(Ordering::SeqCst);
                 let c = cases.get(i).cloned().unwrap_or(Value::Null);
                 let mut s = Summary::new();
-                s.violation("runaway", format!("decoding did not finish within 60 s (case {c})"), c);
+                s.violation("runaway", format!("decoding one input did not finish within 60 s of processor time (case {c})"), c);
                 s.eval(None);
                 s.print();
                 std::process::exit(0);
@@ -776,7 +788,7 @@ pub fn replay(args: &[String]) {
     drop((tx, rx));
     for (i, c) in cases.iter().enumerate() {
         progress.store(i, Ordering::SeqCst);
-        *stamp.lock().unwrap() = Instant::now();
+        *stamp.lock().unwrap() = (Instant::now(), cpu_secs());
         if c["op"] == "capred" {
             if let Err((k, m)) = run_capred(&ctx, c, &mut s) {
                 s.violation(&k, m, c.clone());
@@ -787,9 +799,12 @@ pub fn replay(args: &[String]) {
         let (entry, strict) = (c["entry"].as_str().unwrap(), c["strict"].as_bool().unwrap());
         let muts = plan_of(c);
         let mut applied = false;
-        for it in ctx.items.iter().filter(|i| i.entry == entry) {
+        // (the 128 KiB objects of the size-limit corpus are decoded and swept as they are, not mutated: one of them costs as much as
+        // the rest of its entry's corpus together)
+        for it in ctx.items.iter().filter(|i| i.entry == entry && !i.name.starts_with("assembled-gen-s")) {
           for input in apply_plan(it, &muts, sites) {
             applied = true;
+            *stamp.lock().unwrap() = (Instant::now(), cpu_secs());
             let v = run_one(&ctx, entry, strict, &input);
             s.count(&format!("outcome_{}", v.outcome), 1);
             s.count("accessor_calls", v.calls as u64);
